@@ -91,7 +91,12 @@ def main():
     try:
         old = json.load(open(os.path.join(dst, "meta.json")))
         # the verdicts of the first evaluation (before any strengthening) are kept
-        meta["first_run"] = old.get("first_run") or old.get("checks")
+        meta["first_run"] = old.get("first_run") or (old.get("checks") if "-r3m" in name and "previous_run" not in old else None)
+        meta["previous_run"] = old.get("checks")
+        if old.get("needs_to_manifest") and "needs_to_manifest" not in meta:
+            meta["needs_to_manifest"] = old["needs_to_manifest"]
+        if meta["first_run"] is None:
+            del meta["first_run"]
     except (OSError, ValueError):
         pass
     shutil.copy(patch, os.path.join(dst, "patch.diff"))
